@@ -535,6 +535,12 @@ Value Search::search(Position& position, Depth depth, Value alpha, Value beta,
         if (doFutilityPruning && moveIsQuiet
                 && !position.move_gives_check(move))
         {
+            // a skipped move is assumed not to reach alpha, but it is not assumed to lose: the node is
+            // worth at least the futility bound (otherwise a node whose searched moves all get mated
+            // returns a mate score although one of the skipped quiet moves avoids the mate)
+            bestValue = std::max(bestValue,
+                                 info->_static_eval + (depth == 1 ? FUTILITY_DEPTH_1_MARGIN
+                                                                  : FUTILITY_DEPTH_2_MARGIN));
             continue;
         }
 
